@@ -152,8 +152,11 @@ class Scenario:
                 self.loop.do(finish, self.log, d)
         self._mark = len(self.events)
         self._drain_log()
-        if hasattr(self.src, "positions"):
-            self.ev("ObsPos", pos=[int(x) for x in self.src.positions])
+        try:        # (private attribute: observed only if it has the known shape)
+            if isinstance(self.src.positions, list):
+                self.ev("ObsPos", pos=[int(x) for x in self.src.positions])
+        except Exception:
+            pass
 
     def end(self):
         if self.alive and not self.prologue:
